@@ -217,9 +217,10 @@ Definition raw_of (v : value) (bl : Z) (bt : btype) (en : option enc) (hl : bool
       let two := match en with None | Some Enc2C => true | _ => false end in
       match en with
       | None | Some Enc1C | Some Enc2C | Some EncSM =>
-        let maxv := 2 ^ (bl - 1) - 1 in
-        let minv := if two then - maxv - 1 else - maxv in
-        if (0 <? bl) && ((z <? minv) || (maxv <? z)) then Err ERej else
+        (* without any bit, zero is the only value (since the fix commit "a signed integer of zero bits") *)
+        let maxv := if 0 <? bl then 2 ^ (bl - 1) - 1 else 0 in
+        let minv := if (0 <? bl) && two then - maxv - 1 else - maxv in
+        if (z <? minv) || (maxv <? z) then Err ERej else
         let raw := if 0 <=? z then z
                    else match en with
                         | Some Enc1C => 2 ^ bl - 1 + z
